@@ -24,7 +24,13 @@ SOURCES = {
     "fail-pass2": "nop\nldi r16, nowhere\n",
     "fail-limits": ".device ATtiny13\n.org 512\nnop\n",
     "fail-include": ".include \"missing.inc\"\nnop\n",
+    # 4 KiB of code: its HEX file (about 11 KB) does not fit a 2 KiB file size limit
+    "code4k": "".join(".dw 0x%04x\n" % (i * 7 % 65536) for i in range(2048)) + ".eseg\n.db 1, 2, 3\n",
+    # an image a little over 1 MiB: 16 full 64 KiB blocks and a partly filled 17th
+    "huge": "ldi r16, 1\n.org 0x80000\nnop\n.dw 0xbeef, 0xcafe\n",
+    "huge2": ".org 0x87ff0\n.dw 0x1234\n",
 }
+SPECIAL = ("code4k", "huge", "huge2")      # not part of the full product
 LOCS = ["default", "writable", "existing", "noparent", "isdir", "devfull"]
 
 
@@ -94,6 +100,10 @@ def scenario(root, srcname, srcform, oloc, eloc, verbose, fname="prog.asm"):
             p = os.path.join(root, "out", which + "-dir")
             os.makedirs(p)
             return p, p, False
+        if loc == "fsize":
+            # a location that takes only the beginning of the file: the process runs under a file size limit of 2 KiB
+            p = os.path.join(root, "out", which + "-limited.hex")
+            return p, p, False
         return "/dev/full", "/dev/full", False
     oarg, opath, ow = place(oloc, "flash", stem_of(fname) + ".hex")
     earg, epath, ew = place(eloc, "eep", stem_of(fname) + ".eep.hex")
@@ -125,7 +135,7 @@ def check(prop, tier, seed):
         stdinc = os.path.join(home, ".config", "avra-rs", "includes")
         rnd = random.Random(seed)
         combos = []
-        srcs = list(SOURCES) + ["missing-source"]
+        srcs = [s_ for s_ in SOURCES if s_ not in SPECIAL] + ["missing-source"]
         for srcname in srcs:
             for oloc in LOCS:
                 for eloc in LOCS:
@@ -141,16 +151,29 @@ def check(prop, tier, seed):
                 for srcform in ("abs", "rel-dir", "rel-here"):
                     for oloc, eloc in (("default", "default"), ("writable", "default"), ("default", "writable")):
                         combos.append((srcname, srcform, oloc, eloc, False, fname))
+        # a file size limit that cuts the flash file short; images beyond 1 MiB
+        for srcform, eloc in (("abs", "default"), ("rel-here", "writable"), ("rel-dir", "existing")):
+            combos.append(("code4k", srcform, "fsize", eloc, False, "prog.asm"))
+            combos.append(("code4k", srcform, "writable", eloc, False, "prog.asm"))
+        combos.append(("huge", "abs", "default", "default", False, "prog.asm"))
+        combos.append(("huge", "rel-here", "writable", "default", True, "big.asm"))
+        combos.append(("huge2", "rel-dir", "existing", "default", False, "prog.asm"))
         runs, libjobs = [], []
         for i, (srcname, srcform, oloc, eloc, verbose, fname) in enumerate(combos):
             root = scratch.sub("r%d" % i)
             argv, cwd, opath, epath, ow, ew = scenario(root, srcname, srcform, oloc, eloc, verbose, fname)
             before = snapshot(root)
-            p = subprocess.run([binary] + argv, cwd=cwd, env=env, stdout=subprocess.PIPE, stderr=subprocess.PIPE, timeout=120)
+            cmd = [binary] + argv
+            if oloc == "fsize":
+                cmd = ["sh", "-c", "trap '' XFSZ; ulimit -f 4; exec \"$@\"", "sh"] + cmd
+            p = subprocess.run(cmd, cwd=cwd, env=env, stdout=subprocess.PIPE, stderr=subprocess.PIPE, timeout=120)
             after = snapshot(root)
             others = any(before.get(k) != after.get(k) for k in set(before) | set(after) if k not in (opath, epath))
+            fst = file_state(opath, before, after)
+            if oloc == "fsize":
+                fst["recs"] = []          # a file cut short has no meaning; the specification does not look at it
             runs.append({"argv": argv, "cwd": cwd[len(root):] or "/", "src": srcname, "oloc": oloc, "eloc": eloc,
-                         "flash": file_state(opath, before, after), "eep": file_state(epath, before, after),
+                         "flash": fst, "eep": file_state(epath, before, after),
                          "flash_writable": ow, "eep_writable": ew, "others_changed": others,
                          "exit": p.returncode, "printed": len(p.stdout) + len(p.stderr) > 0,
                          "stdout": (p.stdout + p.stderr).decode("utf-8", "replace")[:300]})
@@ -198,6 +221,7 @@ def check(prop, tier, seed):
             "rule": "%d sources (valid code / code+EEPROM / EEPROM only / empty / > 64 KiB / failing in parse, pass 2, limits, include / missing file) "
                     "x source path form (absolute, with directory, bare) x source file names (plain, dotted stem, no extension, spaces, upper case) x flash output location x EEPROM output location, each of "
                     "{default next to the source, -o/-e writable, existing file, missing parent directory, a directory, /dev/full} x -v; "
+                    "a 4 KiB program under a 2 KiB file size limit (the flash file is cut short); images of 1 MiB + 6 bytes and 1 MiB + 64 KiB - 28 bytes; "
                     "distinct = distinct (source, options)" % len(srcs),
             "lib_ok_runs": sum(1 for e in events if e["lib"]["ok"]), "lib_fail_runs": sum(1 for e in events if not e["lib"]["ok"]),
             "unwritable_output_runs": sum(1 for r in runs if not r["flash_writable"] or not r["eep_writable"]),
